@@ -141,12 +141,12 @@ def parse(case, out):
 
 
 def end_outcome(case, T):
-    """what the end of the promise's life resolves the future to when no call has won: no-value for a plain promise and for
-    move-assignment *over* the promise, the default value for a promise_with_default (also after it was move-assigned
-    into another promise_with_default object: the default travels with the ownership)"""
+    """what the end of the promise's life (destruction, or move-assignment of another promise over it) resolves the future to
+    when no call has won: no-value for a plain promise, the default value for a promise_with_default (also after it was
+    move-assigned into another promise_with_default object: the default travels with the ownership)"""
     lines = [l.split() for l in case["lines"]]
     pwd = next((l for l in lines if l[0] == "pwd"), None)
-    if pwd is None or any(l[0] == "assign-end" for l in lines):
+    if pwd is None:
         return "canceled"
     return "v:" + pwd[2]
 
@@ -213,6 +213,8 @@ class ChainSuite(Suite):
                         sp["pwd destroyed by a d thread"] += 1
                 elif l[0] in ("assign-from", "assign-end"):
                     sp[l[0]] += 1
+                    if l[0] == "assign-end" and any(x[0] == "pwd" for x in ls):
+                        sp["assign-end over a pwd (assign-over)"] = sp.get("assign-end over a pwd (assign-over)", 0) + 1
             for i, t in enumerate(th):
                 if t[:2] == ["w", "sync"]:
                     k = "sync waiter via " + syncs[i % 6]
